@@ -685,8 +685,26 @@ func igcIndexGuards(p *core.Program, r *core.Report, rule string, initLen int64)
 	}
 	// --- parseH: columns < 6 under len(header.Value) < 6; regexp groups
 	{
+		// the date fields may be parsed in a helper parseH hands the value to: the columns and the length test are
+		// looked for in the function of the package, reached from parseH, that contains the parse calls
+		hfn := ph
+		hasParse := func(f *ssa.Function) bool {
+			for _, c := range eng.Calls(f) {
+				if g := c.Common().StaticCallee(); g != nil && (g.Name() == "parseDec" || g.Name() == "parseDecInRange") {
+					return true
+				}
+			}
+			return false
+		}
+		if !hasParse(ph) {
+			for _, c := range eng.Calls(ph) {
+				if g := c.Common().StaticCallee(); g != nil && g.Blocks != nil && core.FnPkgPath(g) == core.FnPkgPath(ph) && hasParse(g) {
+					hfn = g
+				}
+			}
+		}
 		maxCol := int64(0)
-		for _, c := range eng.Calls(ph) {
+		for _, c := range eng.Calls(hfn) {
 			if f := c.Common().StaticCallee(); f != nil && (f.Name() == "parseDec" || f.Name() == "parseDecInRange") {
 				if n, ok := eng.ConstInt(c.Common().Args[2]); ok && n > maxCol {
 					maxCol = n
@@ -694,7 +712,7 @@ func igcIndexGuards(p *core.Program, r *core.Report, rule string, initLen int64)
 			}
 		}
 		guard := int64(-1)
-		for _, b := range ph.Blocks {
+		for _, b := range hfn.Blocks {
 			c, ok := eng.EdgeCmp(b, 0)
 			if ok && c.Op == token.LSS {
 				if n, isC := eng.ConstInt(c.Y); isC {
